@@ -300,7 +300,16 @@ func checkC13(c *Ctx, r *Report) {
 	checkClosureExits(c, r)
 
 	// (h) no blocking call reports success over a failure it was told about
-	checkErrorsExamined(c, r, "errors-examined", "every context-taking function of the library returns success only on paths where every error a module call returned was compared with nil: a failed exchange is never passed over", 10, c.ctxFuncs())
+	// … and the operations handed to backoff.Retry (function literals run by code outside the
+	// module, so part of no other function's view): an attempt that reports success must have
+	// examined every error it was given
+	errFns := c.ctxFuncs()
+	for _, rs := range c.RetrySites() {
+		if rs.Op != nil && rs.Op.Parent() != nil {
+			errFns = append(errFns, rs.Op)
+		}
+	}
+	checkErrorsExamined(c, r, "errors-examined", "every context-taking function of the library, and every operation handed to backoff.Retry, returns success only on paths where every error a module call returned was compared with nil: a failed exchange is never passed over", 10, errFns)
 
 	// (a) transport.Send
 	send := c.transportSend()
@@ -645,4 +654,7 @@ func checkC13(c *Ctx, r *Report) {
 			}
 		}
 	}
+
+	// a command whose retries were given up is a failed command (rule shared by C04, C10, C13)
+	checkRetryFailureReturned(c, r)
 }
